@@ -26,6 +26,8 @@ class NtTriplesYielder(BaseTriplesYielder):
         self._reset_count()
         for a_line in self._line_reader.read_lines():
             tokens = self._look_for_tokens(a_line.strip())
+            if len(tokens) == 0 and a_line.strip().startswith("#"):
+                continue  # Comment line, not an error
             if len(tokens) != 3:
                 self._error_triples += 1
                 log_msg(verbose=False, msg="This line was discarded: " + a_line)
@@ -52,7 +54,7 @@ class NtTriplesYielder(BaseTriplesYielder):
                 last_index = self._look_for_last_index_of_bnode_token(str_line, current_first_index)
                 result.append(str_line[current_first_index:last_index + 1])
                 current_first_index = last_index + 1
-            elif str_line[current_first_index] == '.':
+            elif str_line[current_first_index] == '.' or str_line[current_first_index] == '#':
                 break
 
             elif str_line[current_first_index].isnumeric():
